@@ -466,7 +466,7 @@ func run(c *core.Ctx) error {
 	}
 	// The exhaustive run and the seeded simulation (longer programs over the
 	// extended alphabet) are independent; run the two TLC processes side by side.
-	simCfg, simNum, simDepth := "Rewrite.sim.cfg", 40, 5
+	simCfg, simNum, simDepth := "Rewrite.sim.cfg", 30, 5
 	if !c.Quick() {
 		simCfg, simNum = "Rewrite.simthorough.cfg", 500
 	}
